@@ -53,16 +53,16 @@ def configs(tier):
          dict(kind="generator", pattern="polling", f=25e6)]
     if tier == "quick":
         return q
-    t = [dict(kind="detector", pattern="polling", f=10e6, depth=10, menu="wide"),
-         dict(kind="detector", pattern="polling", f=5e6, depth=10, menu="wide"),
-         dict(kind="detector", pattern="polling", f=12.5e6, depth=10, menu="wide"),
+    t = [dict(kind="detector", pattern="polling", f=10e6, depth=9, menu="wide"),
+         dict(kind="detector", pattern="polling", f=5e6, depth=9, menu="wide"),
+         dict(kind="detector", pattern="polling", f=12.5e6, depth=9, menu="wide"),
          dict(kind="detector", pattern="polling", f=3.3e6, depth=10, menu="wide"),
          dict(kind="detector", pattern="polling", f=25e6, depth=9, menu="edges"),
          dict(kind="detector", pattern="ping", f=250.0, depth=10, menu="wide"),
          dict(kind="detector", pattern="ping", f=1000.0, depth=9, menu="edges"),
-         dict(kind="detector", pattern="ping", f=25e6, depth=7, menu="few"),
-         dict(kind="detector", pattern="reset", f=500.0, depth=7, menu="wide"),
-         dict(kind="detector", pattern="reset", f=250.0, depth=7, menu="wide"),
+         dict(kind="detector", pattern="ping", f=25e6, depth=6, menu="few"),
+         dict(kind="detector", pattern="reset", f=500.0, depth=6, menu="wide"),
+         dict(kind="detector", pattern="reset", f=250.0, depth=6, menu="wide"),
          dict(kind="detector", pattern="reset", f=1000.0, depth=6, menu="edges"),
          dict(kind="generator", pattern="polling", f=10e6),
          dict(kind="generator", pattern="polling", f=5e6),
